@@ -32,6 +32,10 @@ fn key_pool() -> Vec<&'static str> {
         "(-(1+0i))", "(0-(1+0i))", "(-(0.5+0i))", "(-(0.0+0i))", "(-(2.0^63+0i))", "(-(2+0i))", "(-(1/2+0i))", "(0-1/2)", "(-0.5)",
         "(-2.0)", "(0-2)", "[-(1+0i)]", "[0-1]", "[0, -(1+0i)]", "[0, 0-1]", "[-(0.0+0i)]", "V(-(1+0i))", "V(0-1)", "{-(1+0i): 1}",
         "{0-1: 1}", "(-(1+1i))", "(0-1-1i)",
+        // dictionaries that carry a DEFAULT (which is not part of their identity as a key), depth 0-2
+        "{:0, 1: 1}", "{:5, 1: 1}", "{1: 1}", "{1.0: 1}", "frequencies([1])", "{:0}", "{:\"x\"}", "{:0, 1: 2, 3: 4}",
+        "[{:0, 1: 1}]", "[{1: 1}]", "[frequencies([1.0])]", "{7: {:0, 1: 1}}", "{7: {1: 1}}", "{{:0, 1: 1}: 2}", "{{1: 1}: 2}",
+        "[1, [{:9}]]", "[1, [{}]]", "{:null, 1: 2}", "frequencies([1, 2, 2])", "{1: 1, 2: 2}",
         // other key kinds
         "null", "\"a\"", "\"1\"", "\"\"", "B\"a\"",
         // nested in lists, vectors, dicts
@@ -248,7 +252,7 @@ fn run_sequence(g: &mut Gen, rng: &mut Rng, n_ops: usize) {
                 }
             }
             12 => g.mutate(&format!("insert({})", kc), &format!("{} = {} insert [{}, {}]", var, var, k.src, v.src), &var, format!("insp {} [{},{}]", st, k.canon, v.canon)),
-            13 | 14 | 15 => {
+            13 | 14 | 15 | 18 => {
                 // builders from a list of keys
                 let n = rng.below(7) as usize;
                 let xs: Vec<&Elem> = (0..n).map(|_| pick_key(rng, g.keys, g.bad)).collect();
@@ -268,8 +272,41 @@ fn run_sequence(g: &mut Gen, rng: &mut Rng, n_ops: usize) {
                     5 => g.observe("group_all", &format!("group_all({}, idf)", l), format!("group {}", lc), true),
                     6 => g.observe("classify", &format!("classify({}, idf)", l), format!("classify {}", lc), false),
                     _ => {
-                        let e = format!("(tr = []; mf = memoize(\\x -> (tr append= x; [x])); rs = {} map mf; [rs, tr])", l);
-                        g.observe("memoize", &e, format!("memo {}", lc), false)
+                        if rng.chance(1, 2) {
+                            let e = format!("(tr = []; mf = memoize(\\x -> (tr append= x; [x])); rs = {} map mf; [rs, tr])", l);
+                            g.observe("memoize", &e, format!("memo {}", lc), false)
+                        } else {
+                            // ONE memoized variadic function called with argument tuples of every arity:
+                            // f(), f(a), f(a, b), f([a, b]), f(...[a, b]), f([]) — the cache key is the tuple
+                            let ncalls = 2 + rng.below(6) as usize;
+                            let mut calls_src: Vec<String> = vec![];
+                            let mut calls_can: Vec<String> = vec![];
+                            let mut last: Vec<&Elem> = vec![];
+                            for _ in 0..ncalls {
+                                let reuse = !last.is_empty() && rng.chance(1, 2);
+                                let args: Vec<&Elem> = if reuse { last.clone() } else { (0..rng.below(4) as usize).map(|_| pick_key(rng, g.keys, g.bad)).collect() };
+                                let srcs: Vec<String> = args.iter().map(|e| e.src.clone()).collect();
+                                let cans: Vec<String> = args.iter().map(|e| e.canon.clone()).collect();
+                                match rng.below(4) {
+                                    0 => {
+                                        // the same values as ONE list argument
+                                        calls_src.push(format!("mf([{}])", srcs.join(", ")));
+                                        calls_can.push(format!("[[{}]]", cans.join(",")));
+                                    }
+                                    1 => {
+                                        calls_src.push(format!("mf(...[{}])", srcs.join(", ")));
+                                        calls_can.push(format!("[{}]", cans.join(",")));
+                                    }
+                                    _ => {
+                                        calls_src.push(format!("mf({})", srcs.join(", ")));
+                                        calls_can.push(format!("[{}]", cans.join(",")));
+                                    }
+                                }
+                                last = args;
+                            }
+                            let e = format!("(tr = []; mf = memoize(\\...xs -> (tr append= xs; xs)); rs = [{}]; [rs, tr])", calls_src.join(", "));
+                            g.observe("memoize-tuples", &e, format!("memoc [{}]", calls_can.join(",")), false)
+                        }
                     }
                 }
             }
@@ -451,6 +488,27 @@ fn main() {
                 };
                 g.cases.push(Case { key: format!("identity-{}(d{})", name, di), input: format!("{}; {}", setup, expr), request: req.clone(), rust });
             }
+        }
+    }
+    // ---- memoize sweep: one variadic memoized function called in every shape with the same values
+    {
+        let mut picks: Vec<(usize, usize)> = vec![];
+        for _ in 0..40 {
+            picks.push((rng.below(keys.len() as u64) as usize, rng.below(keys.len() as u64) as usize));
+        }
+        for (i, j) in picks {
+            let (a, b) = (&keys[i], &keys[j]);
+            let e = format!(
+                "(tr = []; mf = memoize(\\...xs -> (tr append= xs; xs)); rs = [mf({a}, {b}), mf([{a}, {b}]), mf(), mf([]), mf({a}), mf([{a}]), mf(...[{a}, {b}]), mf({b}, {a}), mf([[{a}, {b}]])]; [rs, tr])",
+                a = a.src, b = b.src
+            );
+            let req = format!(
+                "memoc [[{a},{b}],[[{a},{b}]],[],[[]],[{a}],[[{a}]],[{a},{b}],[{b},{a}],[[[{a},{b}]]]]",
+                a = a.canon, b = b.canon
+            );
+            g.script.clear();
+            g.script.push(PR.to_string());
+            g.observe("memoize-shapes", &e, req, false);
         }
     }
     // ---- exhaustive twin sweep: EVERY ordered pair (a, b) of pool keys: a dictionary keyed by `a`
